@@ -250,7 +250,9 @@ class CHECK(Check):
                   "affine in the predictor (gamma of any mixture with weights summing to 1 is the mixture of the gammas); "
                   "a constant predictor c has (r-1)*c in every entry; the clipped losses lie in the loss object's own "
                   "[min, max] for ALL bounds on numpy arrays and on pandas Series (two lifted clip semantics, finding F21 "
-                  "witness), and so does every BoundedGroupLoss.gamma entry. Tie: translator-lifted expressions "
+                  "witness), and so does every BoundedGroupLoss.gamma entry; gamma_exact (whole first sentence in one statement), "
+                  "index_denominators_pos (no x/0 on an index entry), rate instances for TPR/FPR/EO/DP/ERP with and without "
+                  "strata against BaseMetrics, C06X instances discharging the selector hypotheses for the real event rules. Tie: translator-lifted expressions "
                   "(Generated/MomentsSrc.lean, Generated/LossRange.lean) + Moment / loss objects vs the compiled Lean "
                   "model on generated datasets; independent Fraction oracle decides violations.")
     design_ref = "DESIGN.md section 4, C06"
